@@ -282,10 +282,10 @@ for nm, m in (("chunk", 1), ("chunk", 8), ("chunk", 16), ("fresh", 1), ("fresh",
 STUB_LOOPS = ["core::ptr::copy_nonoverlapping->cno_loop", "core::ptr::copy->copy_loop"]
 V1 = [("push", 0), ("push", 2), ("push", 4), ("pop", 0), ("pop", 3), ("insert", 2), ("insert", 4), ("remove", 3), ("remove", 4), ("swap_remove", 3),
       ("truncate", 3), ("clear", 3), ("resize", 2), ("extend_copy", 3), ("extend_slices", 2), ("append", 3), ("split_off", 3),
-      ("drain", 3), ("drain", 4), ("retain", 3), ("dedup", 3), ("dedup_key", 4), ("reserve", 2), ("reserve", 4), ("shrink", 2),
+      ("drain", 3), ("drain", 4), ("retain", 3), ("dedup", 3), ("dedup_key", 4), ("dedup_by", 3), ("reserve", 2), ("reserve", 4), ("shrink", 2),
       ("into_iter", 3), ("into_iter", 0), ("into_slice", 3)]
 V1_QUICK = {("push", 4), ("pop", 3), ("insert", 2), ("remove", 3), ("swap_remove", 3), ("truncate", 3), ("extend_copy", 3), ("split_off", 3), ("drain", 3),
-            ("retain", 3), ("dedup", 3), ("reserve", 2)}
+            ("dedup", 3), ("dedup_by", 3)}
 for (op, l) in V1:
     H("v1_%s_l%d" % (op, l), "__verif::v1", "V1", quick=["C13"] if (op, l) in V1_QUICK else [], thorough=["C13"] + (["C18"] if op == "reserve" else []),
       exempt=[r"end of harness \((?!%s\))" % (op if op in ("into_iter", "into_slice") else "other")],
@@ -371,7 +371,7 @@ for op in DL:
       funcs=["collections::Vec::" + op, "<Vec as Drop>::drop", "Drain/IntoIter Drop", "Bump::reset"],
       bounds={"elements": 3, "operation": op, "arguments": "symbolic", "then": "container dropped, arena reset"})
 for nm, q in (("basic", 1), ("partial_ord", 1), ("downcast", 1), ("slices", 1), ("from_vec_spare", 1)):
-    H("bx_%s_h" % nm, "__verif::dl", "BX", quick=["C17"] + (["C15"] if nm in ("basic", "slices") else []), thorough=["C17", "C15"], timeout=1500, cost=40,
+    H("bx_%s_h" % nm, "__verif::dl", "BX", quick=["C17"] + (["C15"] if nm in ("basic", "slices") else []) + (["C13"] if nm == "from_vec_spare" else []), thorough=["C17", "C15", "C13"], timeout=1500, cost=40,
       stubs=STUB_CUT + STUB_LOOPS, inst="Box<u32|f32|D|[D;3]|dyn Any>",
       funcs=["boxed::Box::{new_in,into_inner,into_raw,from_raw,leak,pin_in,downcast}", "<Box as Drop>::drop", "PartialEq/PartialOrd/Ord for Box", "From/TryFrom between Box<[T;N]> and Box<[T]>", "Vec::into_boxed_slice"],
       bounds={"values": "symbolic u32 / f32 (incl. NaN) / Drop-ledger values", "scenario": nm})
